@@ -63,8 +63,9 @@ impl DimMode {
         }
     }
     pub fn from_name(s: &str) -> Option<DimMode> {
+        // static dimensions are instantiated for 1..=4; a run-time dimension can be anything
         for dynamic in [false, true] {
-            for n in 1..=8u8 {
+            for n in 1..=255u8 {
                 let d = DimMode { dynamic, n };
                 if d.name() == s && (dynamic || n <= 4) {
                     return Some(d);
@@ -410,9 +411,19 @@ pub enum Payload {
     StatusRedo,
     /// `IVPStatus::Failure(IVPError::UserError(Box<SimFault>))`
     StatusFailure,
+    /// the crate's other public error type, boxed: `DimensionError::StaticOnDynamic` (a
+    /// dimension-generic right-hand side that calls `D::dim()?`)
+    DimError,
+    /// one of the crate's own solver failures, boxed, as a derivative that runs an inner solver
+    /// and hands its error on returns: `IVPError::MinimumTimeDeltaExceeded`
+    InnerMinDt,
+    /// `IVPError::MaximumIterationsExceeded`
+    InnerMaxIter,
+    /// `IVPError::SingularMatrix`
+    InnerSingular,
 }
 
-pub const PAYLOADS: [Payload; 14] = [
+pub const PAYLOADS: [Payload; 18] = [
     Payload::Typed,
     Payload::Text,
     Payload::Io,
@@ -427,6 +438,10 @@ pub const PAYLOADS: [Payload; 14] = [
     Payload::StatusDone,
     Payload::StatusRedo,
     Payload::StatusFailure,
+    Payload::DimError,
+    Payload::InnerMinDt,
+    Payload::InnerMaxIter,
+    Payload::InnerSingular,
 ];
 
 impl Payload {
@@ -446,7 +461,26 @@ impl Payload {
             Payload::StatusDone => "boxed_status_done",
             Payload::StatusRedo => "boxed_status_redo",
             Payload::StatusFailure => "boxed_status_failure",
+            Payload::DimError => "boxed_dimension_error",
+            Payload::InnerMinDt => "boxed_minimum_time_delta_exceeded",
+            Payload::InnerMaxIter => "boxed_maximum_iterations_exceeded",
+            Payload::InnerSingular => "boxed_singular_matrix",
         }
+    }
+    /// Can an error of this kind be told apart from another error of the same kind? (The
+    /// zero-sized error and the bare status values carry no call number, so with them a solver
+    /// that surfaces a later error instead of the first cannot be noticed.)
+    pub fn has_tag(self) -> bool {
+        !matches!(
+            self,
+            Payload::Unit
+                | Payload::StatusDone
+                | Payload::StatusRedo
+                | Payload::DimError
+                | Payload::InnerMinDt
+                | Payload::InnerMaxIter
+                | Payload::InnerSingular
+        )
     }
     pub fn from_name(s: &str) -> Option<Payload> {
         PAYLOADS.iter().copied().find(|p| p.name() == s)
@@ -470,11 +504,16 @@ pub enum Drive {
     /// (`WALK_NAMES`): 0 `fold` and 1 `for_each` see every item up to the first `None`;
     /// 2 `all(|x| x.is_ok())`, 3 `find(|x| x.is_err())` and 4 `position(|x| x.is_err())` stop at the first `Err`
     Walk(u8),
+    /// `it.fold(..)` (kind 0) or `it.for_each(..)` (kind 1) BY VALUE. `by_ref()` does not forward
+    /// these two to an override of the iterator's own; the by-value call does.
+    WalkOwned(u8),
     /// `next()` until the first `Err` or `None`, then one such method on what is left (after an
     /// `Err` it must see nothing), then keep polling
     PollThenWalk(u8),
     /// `next()` until the first `Err` or `None`, then `collect_vec()` on the same iterator
     PollThenCollect,
+    /// `next()` n times (or until the end if that comes first), then `collect_vec()` on the rest
+    PollNThenCollect(u8),
     /// `next()` until the first `Err` or `None`, then `count()` on the same iterator (by value;
     /// `count`, `for_each`, `sum`, `max_by` ... are all built on `fold`)
     PollThenCount,
@@ -503,7 +542,9 @@ impl Drive {
             Drive::Nth0 => "nth0".into(),
             Drive::Walk(k) => WALK_NAMES[(k as usize).min(4)].into(),
             Drive::PollThenWalk(k) => format!("poll_then_{}", WALK_NAMES[(k as usize).min(4)]),
+            Drive::WalkOwned(k) => format!("{}_by_value", WALK_NAMES[(k as usize).min(1)]),
             Drive::PollThenCollect => "poll_then_collect_vec".into(),
+            Drive::PollNThenCollect(n) => format!("poll_n_then_collect_vec:{}", n),
             Drive::PollThenCount => "poll_then_count".into(),
             Drive::PollThenLast => "poll_then_last".into(),
             Drive::PollThenNth(m) => format!("poll_then_nth:{}", m),
@@ -523,6 +564,8 @@ impl Drive {
             "all" => Some(Drive::Walk(2)),
             "find" => Some(Drive::Walk(3)),
             "position" => Some(Drive::Walk(4)),
+            "fold_by_value" => Some(Drive::WalkOwned(0)),
+            "for_each_by_value" => Some(Drive::WalkOwned(1)),
             "poll_then_fold" => Some(Drive::PollThenWalk(0)),
             "poll_then_for_each" => Some(Drive::PollThenWalk(1)),
             "poll_then_all" => Some(Drive::PollThenWalk(2)),
@@ -533,6 +576,7 @@ impl Drive {
             "poll_then_last" => Some(Drive::PollThenLast),
             "count" => Some(Drive::Count),
             "last" => Some(Drive::Last),
+            _ if s.starts_with("poll_n_then_collect_vec:") => s.strip_prefix("poll_n_then_collect_vec:").and_then(|n| n.parse().ok()).map(Drive::PollNThenCollect),
             _ if s.starts_with("poll_then_nth:") => s.strip_prefix("poll_then_nth:").and_then(|n| n.parse().ok()).map(Drive::PollThenNth),
             _ if s.starts_with("nth:") => s.strip_prefix("nth:").and_then(|n| n.parse().ok()).map(Drive::NthSkip),
             _ => s
